@@ -12,8 +12,9 @@
    Not modelled (DESIGN 3.4): rounding of f64 endpoint arithmetic (endpoints are exact
    rationals; the code does not round outward), `as u8` truncation of exponents above 255,
    Rational64::approximate_float and the i64 overflow error in content_factor. *)
-Require Import Ommx.Num Ommx.Poly Ommx.Msg Ommx.Tree Ommx.Bound Ommx.BoundProofs Ommx.BoundMul
-  Ommx.BoundPow Ommx.BoundContent Ommx.BoundEval Ommx.RunC16.
+Require Import Ommx.Num Ommx.Poly Ommx.Msg Ommx.Tree Ommx.Eval Ommx.Inst Ommx.InstProofs Ommx.InstTotal Ommx.Slack.
+Require Import Ommx.Bound Ommx.BoundProofs Ommx.BoundMul
+  Ommx.BoundPow Ommx.BoundContent Ommx.BoundEval Ommx.RunC16 Ommx.BoundInst.
 From Coq Require Import String.
 
 (* Bound::new accepts exactly the valid shapes, and what it returns satisfies the invariant *)
@@ -185,3 +186,62 @@ Example C16_content_integer_nonvacuous :
   content_factor (FConst 0) = Some 1 /\
   as_integer_bound (mk (Fin (Q2Qc (3 # 10))) (Fin (Q2Qc (27 # 10)))) = Some (mk (Fin (qz 1)) (Fin (qz 2))).
 Proof. vm_compute. repeat split; reflexivity. Qed.
+
+
+(* ---------------------------------------------------------------------------------------------
+   INSTANCE LEVEL (BoundInst.v): the intervals against Instance::evaluate.  bs is the box the SDK
+   derives from the decision variables (absent bound = whole line, [0,1] for binaries, the last
+   declaration of an id wins).  For every accepted state, every active and removed constraint record
+   reports the function's value at the state, and that value lies in evaluate_bound f bs as soon as
+   the variables OCCURRING in f are exactly within their bounds (the evaluator itself accepts 1e-7
+   outside: then the value lies in the interval over the box widened by 1e-7, for every function; for
+   linear functions in the interval widened by 1e-7 * sum |coefficient|); likewise the objective.
+   Decisions the slack conversions rely on: upper B <= 0  =>  the record of f <= 0 holds at every such
+   state; lower B > 0 => f(x) > 0; lower B >= 1e-6 => the feasibility flag is false (the margin is
+   needed: the flag tolerates 1e-6, see never_needs_margin). *)
+Theorem C16_evaluated_in_bounds : forall I x sol bs,
+  box_of (i_dvs I) [] = Some bs -> inst_eval I x = Some sol ->
+  exists ea er, so_evaluated sol = ea ++ er /\
+    Forall2 (fun c e => record_in_bound I bs x None c e) (i_cs I) ea /\
+    Forall2 (fun r e => exists c, r_c r = Some c /\
+               record_in_bound I bs x (Some (r_reason r, r_params r)) c e) (i_rs I) er /\
+    (so_feasible_relaxed sol = true <-> Forall holds ea) /\
+    (so_feasible sol = true <-> Forall holds (ea ++ er)) /\
+    so_objective sol = denote (fn_or_zero (i_obj I)) (total x) /\
+    (fn_exact (i_dvs I) x (fn_or_zero (i_obj I)) ->
+     encl bs (fn_or_zero (i_obj I)) (so_objective sol)).
+Proof. exact evaluated_values_in_bounds. Qed.
+Print Assumptions C16_evaluated_in_bounds.
+
+Theorem C16_evaluated_in_widened_bounds : forall I x sol bs,
+  box_of (i_dvs I) [] = Some bs -> inst_eval I x = Some sol ->
+  exists ea er, so_evaluated sol = ea ++ er /\
+    Forall2 (fun c e => record_in_wide_bound bs x None c e) (i_cs I) ea /\
+    Forall2 (fun r e => exists c, r_c r = Some c /\
+               record_in_wide_bound bs x (Some (r_reason r, r_params r)) c e) (i_rs I) er /\
+    encl (widen tol7 bs) (fn_or_zero (i_obj I)) (so_objective sol).
+Proof. exact evaluated_values_in_widened_bounds. Qed.
+Print Assumptions C16_evaluated_in_widened_bounds.
+
+Theorem C16_always_satisfied : forall I x sol bs c B,
+  box_of (i_dvs I) [] = Some bs -> inst_eval I x = Some sol ->
+  In c (all_constrs I) -> fn_exact (i_dvs I) x (cfun c) ->
+  evaluate_bound (cfun c) bs = Some B -> ext_le0 (upper B) = true -> c_eq c = LE_ZERO ->
+  cval c x <= 0 /\ c_holds c x /\ (forall e, rec_of x c e -> holds e).
+Proof. exact always_satisfied. Qed.
+Print Assumptions C16_always_satisfied.
+
+Theorem C16_never_feasible : forall I x sol bs c B,
+  box_of (i_dvs I) [] = Some bs -> inst_eval I x = Some sol ->
+  In c (all_constrs I) -> fn_exact (i_dvs I) x (cfun c) ->
+  evaluate_bound (cfun c) bs = Some B -> eleb (Fin tol6) (lower B) = true ->
+  ~ c_holds c x /\ so_feasible sol = false /\
+  (In c (i_cs I) -> so_feasible_relaxed sol = false).
+Proof. exact never_feasible. Qed.
+Print Assumptions C16_never_feasible.
+Check never_satisfied.
+Check linear_value_in_widened_interval.
+Check reported_state_in_box.
+Check never_needs_margin.
+Check evaluated_values_in_bounds_nonvacuous.
+Print Assumptions evaluated_values_in_bounds_nonvacuous.
